@@ -187,7 +187,18 @@ def run(ctx):
            0xEDB88320 in consts, "large constants: %s" % sorted(hex(c) for c in consts))
 
     # ---- coverage by cursor-skeleton execution
-    core = P.fn("crc32_slicing_by_8", CRC)
+    # the core routine: the function of crc32.c (other than the table builder) that folds bytes through the tables
+    cands = [g for g in P.funcs_in(CRC) if g.name != "crc32_init_tables" and "arm" not in g.name and
+             any(x.k == "DeclRefExpr" and x.get("dk") == "global" and x.name == "crc32_tables" for x in g.body.walk())
+             and any("*" in p_["t"] for p_ in g.params)]
+    if len(cands) != 1:
+        # several routines touch the tables (a round helper): the core is the one the incremental entry point calls
+        called = set(c.callee for c in P.fn("carquet_crc32_update", CRC).calls())
+        direct = [g for g in P.funcs_in(CRC) if g.name in called and any("*" in p_["t"] for p_ in g.params) and "arm" not in g.name]
+        if len(direct) != 1:
+            raise AnalysisBroken("crc32.c: cannot single out the routine that folds bytes through crc32_tables (%s)" % [g.name for g in cands])
+        cands = direct
+    core = cands[0]
     didx = [i for i, p in enumerate(core.params) if "*" in p["t"]]
     nidx = [i for i, p in enumerate(core.params) if p["t"].replace("const ", "") in ("size_t", "uint64_t", "uint32_t", "int")
             and p["n"] not in ("crc",)]
@@ -225,65 +236,62 @@ def run(ctx):
                              "CRC routine accesses data at an offset that depends on buffer contents")
             return
     ctx.count("crc_skeleton_runs", runs)
-    ctx.ob("R4.skeleton", "crc-in-bounds|%s:crc32_slicing_by_8" % CRC, P.where(core.body),
+    ctx.ob("R4.skeleton", "crc-in-bounds|%s:%s" % (CRC, core.name), P.where(core.body),
            "for every length 0..%d the CRC routine reads only data[0..length)" % NMAX, bad_oob is None,
            "length %s reads [%s,%s) at line %s" % bad_oob if bad_oob else "")
-    ctx.ob("R4.skeleton", "crc-covers|%s:crc32_slicing_by_8" % CRC, P.where(core.body),
+    ctx.ob("R4.skeleton", "crc-covers|%s:%s" % (CRC, core.name), P.where(core.body),
            "for every length 0..%d every input byte is read by the CRC routine" % NMAX, bad_cov is None,
            "length %s: bytes %s never enter the checksum" % bad_cov if bad_cov else "")
     # both entry points are executed abstractly with the core routine hooked, over running values x
     # lengths (incl. 0) x NULL / non-NULL data: each returns what the core computes for exactly its own
     # (running crc | 0, data, length); for an empty chunk it may also answer itself, with the unchanged value
     from ..rules import sem
+    # the two entry points, with the core routine hooked: each folds exactly its own (data, length) once;
+    # a fresh checksum is an update from 0; what an update returns, fed back as the running value, resumes the
+    # core exactly where it stopped (chunks compose); an empty chunk changes nothing. Whether the register
+    # inversion lives in the core or in the entry points does not matter.
+    f_new = P.fn("carquet_crc32", CRC)
+    f_upd = P.fn("carquet_crc32_update", CRC)
+
+    def run_ep(f, args, marker):
+        hooks = {core.name: (lambda ev, a, it: ev.append(tuple((x.base, x.off) if isinstance(x, Ptr) else x for x in a)) or marker)}
+        return sem.run(P, f, args, hooks=hooks, single=True, max_forks=16)
     try:
-        bad0 = None
-        for c0 in (0, 1, 0x1234ABCD, 0xFFFFFFFF):
-            a0 = [0] * len(core.params)
-            a0[didx[0]] = Ptr("data", 0, 1)
-            a0[nidx[-1]] = 0
-            ci = [i for i, p_ in enumerate(core.params) if i not in (didx[0], nidx[-1])]
-            if len(ci) != 1:
-                raise sem.Inconclusive("core routine has no single running-value parameter")
-            a0[ci[0]] = c0
-            for ret, ev, _h in sem.run(P, core, a0, single=False, max_forks=16, budget=400000):
-                if ret != c0 and bad0 is None:
-                    bad0 = "core(%#x, data, 0) returns %s" % (c0, hex(ret) if isinstance(ret, int) else ret)
-        ctx.ob("R5.agree", "crc-empty|%s:%s" % (CRC, core.name), P.where(core.body),
-               "folding zero bytes leaves the running CRC unchanged (so chunked updates compose at chunk boundaries)", bad0 is None, bad0 or "")
-    except sem.Inconclusive as ex:
-        ctx.inconclusive("R5.agree", "crc-empty|%s:%s" % (CRC, core.name), P.where(core.body), "abstract execution of the core routine", str(ex))
-    for ep in ("carquet_crc32", "carquet_crc32_update"):
-        f = P.fn(ep, CRC)
         bad = None
         npts = 0
-        try:
-            for c0 in (0, 1, 0x1234ABCD, 0xFFFFFFFF):
-                for n_ in (0, 1, 7, 8, 9, 100):
-                    for dptr in (Ptr("chunk", 0, 1), 0):
-                        if dptr == 0 and n_ != 0:
-                            continue
-                        if ep == "carquet_crc32" and c0 != 0:
-                            continue
-                        npts += 1
-                        marker = 0x5EED0000 + n_
-                        hooks = {core.name: (lambda ev, a, it, marker=marker: ev.append(("core",) + tuple(
-                            (x.base, x.off) if isinstance(x, Ptr) else x for x in a)) or marker)}
-                        args = [dptr, n_] if ep == "carquet_crc32" else [c0, dptr, n_]
-                        for ret, ev, _h in sem.run(P, f, args, hooks=hooks, single=False, max_forks=16):
-                            want_args = ("core", c0 if ep != "carquet_crc32" else 0,
-                                         ("chunk", 0) if dptr != 0 else 0, n_)
-                            delegated = ev == [want_args] and ret == marker
-                            own_empty = n_ == 0 and ev == [] and ret == (c0 if ep != "carquet_crc32" else 0)
-                            if not (delegated or own_empty) and bad is None:
-                                bad = "%s(%s%s, %d): core calls %s, returns %s" % (
-                                    ep, "%#x, " % c0 if ep != "carquet_crc32" else "", "data" if dptr != 0 else "NULL", n_,
-                                    ev, hex(ret) if isinstance(ret, int) else ret)
-            ctx.ob("R5.agree", "crc-entry|%s:%s" % (CRC, ep), P.where(f.body),
-                   "%s returns the core routine's result for exactly its own (data, length) and %s; an empty chunk leaves the value unchanged "
-                   "(%d points, abstract execution)" % (ep, "initial value 0" if ep == "carquet_crc32" else "the running crc", npts),
-                   bad is None, bad or "")
-        except sem.Inconclusive as ex:
-            ctx.inconclusive("R5.agree", "crc-entry|%s:%s" % (CRC, ep), P.where(f.body), "abstract execution of %s" % ep, str(ex))
+        ci = [i for i, p_ in enumerate(core.params) if i not in (didx[0], nidx[-1])][0]
+        for n_ in (1, 7, 8, 9, 100):
+            for marker in (0, 0x5EED0001, 0xFFFFFFFF):
+                npts += 1
+                r1, e1, _h = run_ep(f_new, [Ptr("chunk", 0, 1), n_], marker)
+                r2, e2, _h = run_ep(f_upd, [0, Ptr("chunk", 0, 1), n_], marker)
+                for nm, ev in (("carquet_crc32", e1), ("carquet_crc32_update", e2)):
+                    if len(ev) != 1 or ev[0][didx[0]] != ("chunk", 0) or ev[0][nidx[-1]] != n_:
+                        bad = bad or "%s(data, %d): core calls %s" % (nm, n_, ev)
+                if bad is None and (e1 != e2 or r1 != r2):
+                    bad = "a fresh checksum is not an update from 0: crc32 -> core%s = %s, update(0) -> core%s = %s" % (e1, r1, e2, r2)
+                for c0 in (0, 0x1234ABCD):
+                    ra, ea, _h = run_ep(f_upd, [c0, Ptr("chunk", 0, 1), n_], marker)
+                    rb, eb, _h = run_ep(f_upd, [ra, Ptr("chunk", 0, 1), n_], 0)
+                    if bad is None and (len(eb) != 1 or not isinstance(ra, int) or eb[0][ci] != marker):
+                        bad = "chunks do not compose: update returns %s for core state %#x, and resumes the core from %s" % (
+                            hex(ra) if isinstance(ra, int) else ra, marker, eb)
+        ctx.ob("R5.agree", "crc-entry|%s:entry points" % CRC, P.where(f_upd.body),
+               "carquet_crc32 / carquet_crc32_update fold exactly their own (data, length), a fresh checksum is an update from 0, and the "
+               "value an update returns resumes the core where it stopped (%d points, core hooked)" % npts, bad is None, bad or "")
+        bad_e = None
+        for c0 in (0, 1, 0x1234ABCD, 0xFFFFFFFF):
+            for dptr in (Ptr("chunk", 0, 1), 0):
+                for ret, ev, _h in sem.run(P, f_upd, [c0, dptr, 0], single=False, max_forks=16, budget=400000):
+                    if ret != c0:
+                        bad_e = bad_e or "carquet_crc32_update(%#x, %s, 0) returns %s" % (c0, "data" if dptr != 0 else "NULL", hex(ret) if isinstance(ret, int) else ret)
+        for ret, ev, _h in sem.run(P, f_new, [Ptr("chunk", 0, 1), 0], single=False, max_forks=16, budget=400000):
+            if ret != 0:
+                bad_e = bad_e or "carquet_crc32(data, 0) returns %s" % (hex(ret) if isinstance(ret, int) else ret)
+        ctx.ob("R5.agree", "crc-entry|%s:empty chunk" % CRC, P.where(f_upd.body),
+               "an empty chunk leaves a running CRC unchanged and the CRC of nothing is 0 (executed with the real core)", bad_e is None, bad_e or "")
+    except (sem.Inconclusive, IndexError) as ex:
+        ctx.inconclusive("R5.agree", "crc-entry|%s:entry points" % CRC, P.where(f_upd.body), "abstract execution of the entry points", str(ex))
 
 
 def _enable_table(crc):
